@@ -1020,8 +1020,8 @@ func runCase(c Case, ob *observer) (fail *kit.Failure, hist []string) {
 				return nil
 			}
 		}
-		da, ea := prog.ApplyEdit(x.d.reps[i].d, s)
-		db, eb := prog.ApplyEdit(x.w.reps[i].d, s)
+		da, ea := applyEdit(x.d.reps[i].d, s)
+		db, eb := applyEdit(x.w.reps[i].d, s)
 		x.logf("c%d: %s", i, da)
 		sa, sb := "", ""
 		if ea != nil {
